@@ -7,8 +7,8 @@
   (object.py:821-835) and `callable_eq` (typing/inspect.py:198-232) on the value domain below,
   *as they are in the tree with fixes/C06-*.patch applied* (F14: `lt` of two `None` / two missing
   markers is `False`; F15b: dict keys are ordered by `lt`, not by native `<`; F15a: `Dict.sym_hash`
-  combines the items with a `frozenset`). Defects that are kept (known findings) are mirrored:
-  `lt` walks dict keys *by position* (F15), `pg.hash` of a plain `list`/`dict` raises (F16),
+  combines the items with a `frozenset`; F15: `lt` walks dict keys in sorted order, object fields in
+  declaration order). Defects that are kept (known findings) are mirrored:
   `lt` between instances of two distinct classes with one `__qualname__` never terminates (F39).
 
   Numbers are exact dyadic rationals `m / 2^e` carrying their Python type as a tag (bool / int /
@@ -73,6 +73,9 @@ structure Env where
   rankOf : TypeKind → Str
   /-- `type(value).__qualname__` of user class `c`. -/
   qual : Nat → Str
+  /-- the declared field names of class `c`, in declaration order (used by the `Comparable`
+  class of the theorems only; no model function reads it). -/
+  fields : Nat → List Atom := fun _ => []
 
 /-! ### Equality (`eq`, `ne`) -/
 
@@ -166,7 +169,7 @@ mutual
 end
 
 mutual
-  /-- `pg.lt`. -/
+  /-- the core of `pg.lt`: on values whose dict keys are sorted (see `symLt` below). -/
   def lt (env : Env) : Val → Val → Except Err Bool
     | .atom a, y =>
         match rankCmp env (.atom a) y with
@@ -216,8 +219,51 @@ mutual
         else atomLt env k k'
 end
 
-/-- `pg.gt`. -/
+/-- `lt` with swapped arguments (on key-sorted values). -/
 def gt (env : Env) (x y : Val) : Except Err Bool := lt env y x
+
+/-! ### Key order of dicts (fix F15): `lt` walks the keys of a dict in *sorted* order
+
+`base.lt` sorts the keys of both dicts by `lt` before walking them (`_sorted_keys`), while
+`Object.sym_lt` compares the fields of two objects of one class in declaration order. Sorting the
+keys at every level during the comparison is the same as sorting all dicts first (`canon`) and then
+comparing by position (`lt` above, whose sub-value tests `eq` do not depend on key order). -/
+
+def okTrue : Except Err Bool → Bool
+  | .ok true => true
+  | _ => false
+
+/-- insertion into a key-sorted association list (`sorted(d.keys(), key=cmp_to_key(lt))`). -/
+def insertItem (env : Env) (k : Atom) (v : Val) : List (Atom × Val) → List (Atom × Val)
+  | [] => [(k, v)]
+  | (k', w) :: rest =>
+    if okTrue (atomLt env k k') then (k, v) :: (k', w) :: rest else (k', w) :: insertItem env k v rest
+
+def sortItems (env : Env) : List (Atom × Val) → List (Atom × Val)
+  | [] => []
+  | (k, v) :: rest => insertItem env k v (sortItems env rest)
+
+mutual
+  /-- every dict with its keys sorted (object attributes keep their declaration order). -/
+  def canon (env : Env) : Val → Val
+    | .atom a => .atom a
+    | .list s xs => .list s (canonList env xs)
+    | .tuple xs => .tuple (canonList env xs)
+    | .dict s kvs => .dict s (sortItems env (canonItems env kvs))
+    | .obj c kvs => .obj c (canonItems env kvs)
+  def canonList (env : Env) : List Val → List Val
+    | [] => []
+    | x :: xs => canon env x :: canonList env xs
+  def canonItems (env : Env) : List (Atom × Val) → List (Atom × Val)
+    | [] => []
+    | (k, v) :: rest => (k, canon env v) :: canonItems env rest
+end
+
+/-- `pg.lt`. -/
+def symLt (env : Env) (x y : Val) : Except Err Bool := lt env (canon env x) (canon env y)
+
+/-- `pg.gt`. -/
+def symGt (env : Env) (x y : Val) : Except Err Bool := symLt env y x
 
 /-! ### Hashing -/
 
@@ -239,27 +285,28 @@ def isMissing : Val → Bool
   | _ => false
 
 mutual
-  /-- `pg.hash` (`base.sym_hash`); for tuples: native `hash`, whose elements hash through
-  `__hash__` = `sym_hash` for symbolic values. -/
+  /-- `pg.hash` (`base.sym_hash`, after fix F16): plain lists / dicts hash like the symbolic
+  containers they are `eq` to, tuples element-wise through `sym_hash`. Every tuple handed to
+  `sym_hash` is hashed as `hash(tuple([sym_hash(e) for e in x]))`, hence the `reh` layers. The
+  result type stays `Except` (no branch raises any more). -/
   def hashTerm : Val → Except Err HTerm
     | .atom a => .ok (.atom a)
-    | .list true xs =>
+    | .list _ xs =>
         match hashList xs with
-        | .ok ts => .ok (.tup [.cls .list, .tup (ts.map .reh)])
+        | .ok ts => .ok (.tup [.reh (.cls .list), .reh (.tup ((ts.map .reh).map .reh))])
         | .error e => .error e
-    | .list false _ => .error .typeError                 -- hash(list)
     | .tuple xs =>
         match hashList xs with
-        | .ok ts => .ok (.tup ts)
+        | .ok ts => .ok (.tup (ts.map .reh))
         | .error e => .error e
-    | .dict true kvs =>
+    | .dict _ kvs =>
         match hashItems kvs with
-        | .ok ts => .ok (.tup [.cls .dict, .fset ts])
+        | .ok ts => .ok (.tup [.reh (.cls .dict), .reh (.fset ts)])
         | .error e => .error e
-    | .dict false _ => .error .typeError                 -- hash(dict)
     | .obj c kvs =>
         match hashItems kvs with
-        | .ok ts => .ok (.tup [.cls (.user c), .reh (.tup [.cls .dict, .fset ts])])
+        | .ok ts => .ok (.tup [.reh (.cls (.user c)),
+                               .reh (.reh (.tup [.reh (.cls .dict), .reh (.fset ts)]))])
         | .error e => .error e
   def hashList : List Val → Except Err (List HTerm)
     | [] => .ok []
@@ -268,7 +315,7 @@ mutual
         | .ok t, .ok ts => .ok (t :: ts)
         | .error e, _ => .error e
         | _, .error e => .error e
-  /-- `(k, sym_hash(v)) for k, v in items if v != MISSING_VALUE`. -/
+  /-- `(k, sym_hash(v)) for k, v in items if v != MISSING_VALUE` (each pair hashed natively). -/
   def hashItems : List (Atom × Val) → Except Err (List HTerm)
     | [] => .ok []
     | (k, v) :: rest =>
